@@ -54,7 +54,30 @@ def generate(seed, tier, index):
         steps = (1000, 5000)
     giant = kind == "tauleap" and not huge and not half and rs.chance(0.05)
     dtail = kind == "euler" and rs.chance(0.08)
-    if dtail:
+    biggrid = kind == "euler" and rs.chance(0.06)
+    if biggrid:
+        # a few hundred cells (a blocked or tiled sweep over the grid has seams somewhere): diffusion with gradients everywhere
+        dims = rs.choice([[17, 16, 1], [20, 15, 1], [9, 8, 5], [300, 1, 1], [7, 7, 7], [33, 9, 1]])
+        nc_ = dims[0] * dims[1] * dims[2]
+        vol = (rs.loguniform(0.5, 2.0) * 1e-6) ** 3
+        h_ = vol ** (1.0 / 3.0)
+        Dd = rs.loguniform(0.05, 1.0) * 1e-12
+        st_ = [rs.uniform(0.0, 100.0) for _ in range(nc_)] + [float(rs.randint(0, 50)) for _ in range(nc_)]
+        spec_t = {"envs": ["cyt"], "species": [{"label": "A", "D": [Dd], "dens": [0.0], "chst": [0]},
+                                               {"label": "B", "D": [Dd * rs.uniform(0.2, 1.0)], "dens": [0.0], "chst": [0]}],
+                  "reactions": [{"label": None, "sub": {"A": 1}, "prod": {"B": 1}, "kf": [rs.loguniform(0.01, 0.2) * Dd / (h_ * h_)], "kr": [0.0]}],
+                  "space": {"type": "grid", "w": dims[0], "h": dims[1], "d": dims[2],
+                            "bc": [rs.choice(["reflecting", "periodical"]) for _ in range(3)], "cell_env": [0] * nc_, "vol": vol},
+                  "state": st_, "chem": None}
+        for ax in range(3):
+            if dims[ax] == 1:
+                spec_t["space"]["bc"][ax] = "reflecting"
+        dtt = rs.uniform(0.02, 0.12) * h_ * h_ / Dd
+        nst = rs.randint(5, 20)
+        sp_t = {"kind": "euler", "dt": dtt, "t_sample": [0.0, (nst - 0.5) * dtt], "t_max": None, "policy": "on_iteration",
+                "interval": dtt, "seed": rk.bits(31), "isp": "auto", "ongrid": False, "steps": nst}
+        entry = C.rerender_plain({"phys": {"spec": spec_t, "sp": sp_t, "kind": "euler"}})
+    elif dtail:
         # diffusion alone from a point source of a few molecules along a chain of empty cells, written and run in a units
         # system whose quantity unit is far above one molecule: the tail holds amounts like 1e-40 units, which are amounts
         nc_ = rs.randint(8, 20)
@@ -91,7 +114,7 @@ def generate(seed, tier, index):
     sp = entry["phys"]["sp"]
     nrep = rf.wchoice([(1, 3), (2, 2)])
     scripts = [entry]
-    if nrep == 2 and rf.chance(0.6) and not giant and not dtail:
+    if nrep == 2 and rf.chance(0.6) and not giant and not dtail and not biggrid:
         # second set-up on the same engine object with a sibling model: same species, same number of reactions, other
         # stoichiometry and constants (what a front-end cache keyed too coarsely would confuse)
         from .. import gen
@@ -121,7 +144,7 @@ def generate(seed, tier, index):
         eps.append({"obj": 0, "kind": kind, "via": rf.choice(["LibRDEngine", "factory"]), "script": sidx, "ops": ops})
     return {"format": 1, "property": ID, "seed": seed, "tier": tier, "index": index, "build": "plain",
             "scripts": scripts, "lifetimes": [{"pyseed": rf.bits(30), "episodes": eps}],
-            "meta": {"kind": kind, "sibling": len(scripts) > 1, "huge": huge, "half": half, "giant": giant, "dtail": dtail}}
+            "meta": {"kind": kind, "sibling": len(scripts) > 1, "huge": huge, "half": half, "giant": giant, "dtail": dtail, "biggrid": biggrid}}
 
 
 def check(case, results):
@@ -136,6 +159,8 @@ def check(case, results):
         stats["counts_above_2^24"] = 1
     if case["meta"].get("giant"):
         stats["firings_per_step_above_2^31/n"] = 1
+    if case["meta"].get("biggrid"):
+        stats["grid_of_several_hundred_cells"] = 1
     if case["meta"].get("dtail"):
         stats["diffusion_tail_in_mol_units"] = 1
     if case["meta"].get("half"):
